@@ -23,8 +23,9 @@ Modelled rather than verified (inputs or assumptions of the model, guarded by th
   `oc` and `dc` are unrelated lists in the theorems; on ties the harness puts `nearest_neighbor`'s choice first;
 * exact arithmetic: every theorem is over a linearly ordered field; f32 coordinates, the f32 `haversine`, f64
   rounding in the unit conversion and NaN are outside;
-* the builders: "file exists / parses (finite coordinates) / has n rows / contains an empty linestring" are
-  abstract booleans and counts (`fileParses`, `EdgeFiles`), not file contents;
+* the builders: "file exists / parses (finite coordinates) / has n rows / contains an empty linestring / contains a
+  linestring with a non-finite coordinate or centroid" are abstract booleans and counts (`fileParses`, `EdgeFiles`),
+  not file contents; of `serde`'s alternative spellings only `{"<unit>": null}` and `[mapping]` are modelled;
 * `within_tolerance`'s "empty linestring" error is merged into `gc = none`; the panic of
   `EdgeRtreeRecord::distance_2` on an empty linestring is not an outcome of the model — excluded for plugins made
   by the builder (`edge_builder_consistent`), reachable only through the `pub` fields;
@@ -772,11 +773,12 @@ theorem vertex_builder_ok_iff (cfg : Json) (fileExists fileParses : Bool) (r : O
 lookup, if any, has the network's size -/
 theorem edge_new_ok_iff (files : EdgeFiles) (tol : Option (Nat × DistanceUnit)) (hasRc hasVr : Bool) (pl : EdgePlugin) :
     edgeNew files tol hasRc hasVr = .ok pl ↔
-      (⟨tol, hasRc, hasVr⟩ : EdgePlugin) = pl ∧ files.emptyLinestring = false ∧ files.geometry.isSome ∧
+      (⟨tol, hasRc, hasVr⟩ : EdgePlugin) = pl ∧ files.emptyLinestring = false ∧ files.nonFinite = false ∧
+      files.geometry.isSome ∧
       (hasRc = true → files.roadClass = files.geometry) ∧ (hasVr = true → files.restrictionsOk = true) := by
-  obtain ⟨rcl, rok, geo, empty⟩ := files
+  obtain ⟨rcl, rok, geo, empty, nonfin⟩ := files
   unfold edgeNew
-  cases hasRc <;> cases hasVr <;> cases geo <;> cases empty <;> cases rok <;> cases rcl <;> simp <;>
+  cases hasRc <;> cases hasVr <;> cases geo <;> cases empty <;> cases nonfin <;> cases rok <;> cases rcl <;> simp <;>
     (split <;> simp_all)
 
 /-- `EdgeRtreeInputPluginBuilder::build` accepts exactly the configurations whose `geometry_input_file` is a
@@ -809,13 +811,14 @@ theorem edge_builder_ok_iff (cfg : Json) (files : EdgeFiles) (pl : EdgePlugin) :
             cases hp : cfgParserOk cfg <;> simp
 
 /-- a plugin the edge builder accepts has a road-class lookup of exactly the network's size whenever it has
-one, and no empty linestring: the "road class file missing edge" arm of `search` and the panic of
+one, no empty linestring and no non-finite coordinate or centroid: the "road class file missing edge" arm of
+`search`, the panic of the r-tree search on a NaN `distance_2` and the panic of
 `EdgeRtreeRecord::distance_2` are out of reach of every built plugin; its tolerance is the one of
 `builder_tolerance_resolution`.  Every other configuration is an error value (the model has no panic outcome:
 that the real builder has none either is what the `b e` correspondence stream checks). -/
 theorem edge_builder_consistent (cfg : Json) (files : EdgeFiles) (pl : EdgePlugin)
     (h : edgeBuilder cfg files = .ok pl) :
-    files.emptyLinestring = false ∧ files.geometry.isSome ∧
+    files.emptyLinestring = false ∧ files.nonFinite = false ∧ files.geometry.isSome ∧
     (pl.hasLookup = true → files.roadClass = files.geometry) ∧
     (pl.hasRestrictions = true → files.restrictionsOk = true) ∧
     ∃ t u, cfgTolerance cfg = .ok t ∧ cfgUnit cfg = .ok u ∧ pl.tolerance = resolveTolerance t u := by
@@ -838,8 +841,8 @@ theorem edge_builder_consistent (cfg : Json) (files : EdgeFiles) (pl : EdgePlugi
             simp only [hg, hrc, hvr, ht, hu] at h
             split at h
             · cases h
-            · obtain ⟨rfl, h1, h2, h3, h4⟩ := (edge_new_ok_iff _ _ _ _ _).mp h
-              exact ⟨h1, h2, h3, h4, t, u, rfl, rfl, rfl⟩
+            · obtain ⟨rfl, h1, h1', h2, h3, h4⟩ := (edge_new_ok_iff _ _ _ _ _).mp h
+              exact ⟨h1, h1', h2, h3, h4, t, u, rfl, rfl, rfl⟩
 
 /-! ### haversine: which coordinates it accepts -/
 
@@ -1007,11 +1010,25 @@ example : vertexBuilder (.obj [("vertices_input_file", .str "v.csv"), ("distance
     resolveTolerance, baseDistanceUnit]
 example : vertexBuilder (.obj [("distance_tolerance", .num "10" 4621819117588971520)]) true true = .error .missingField := by
   simp [vertexBuilder, cfgString, Json.get?, Json.lookup]
-example : edgeBuilder (.obj [("geometry_input_file", .str "g.txt")]) ⟨none, true, some 3, true⟩ = .error .userConfig := by
+example : edgeBuilder (.obj [("geometry_input_file", .str "g.txt")]) ⟨none, true, some 3, true, false⟩ = .error .userConfig := by
   simp [edgeBuilder, edgeNew, cfgParserOk, cfgString, cfgStringOpt, cfgTolerance, cfgUnit, Json.get?, Json.lookup, Json.asStr?]
-example : (edgeBuilder (.obj [("geometry_input_file", .str "g.txt")]) ⟨none, true, some 3, false⟩).toOption.isSome = true := by
+example : (edgeBuilder (.obj [("geometry_input_file", .str "g.txt")]) ⟨none, true, some 3, false, false⟩).toOption.isSome = true := by
   simp [edgeBuilder, edgeNew, cfgParserOk, cfgString, cfgStringOpt, cfgTolerance, cfgUnit, Json.get?, Json.lookup, Json.asStr?,
     Except.toOption]
+-- a geometry file with a non-finite coordinate or centroid (e.g. the all-finite row `LINESTRING (3e38 0, -3e38 0)`) is
+-- refused at load (it used to build, and every query then panicked inside the r-tree)
+example : edgeBuilder (.obj [("geometry_input_file", .str "g.txt")]) ⟨none, true, some 3, false, true⟩ = .error .userConfig := by
+  simp [edgeBuilder, edgeNew, cfgParserOk, cfgString, cfgStringOpt, cfgTolerance, cfgUnit, Json.get?, Json.lookup, Json.asStr?]
+-- serde's other spellings: a unit as {"kilometers": null}, the road-class parser as [mapping]
+example : cfgUnit (.obj [("distance_unit", .obj [("kilometers", .null)])]) = .ok (some DistanceUnit.kilometers) := by
+  simp [cfgUnit, serdeUnitName, Json.get?, Json.lookup]; decide
+example : cfgUnit (.obj [("distance_unit", .obj [("kilometers", .num "1" 0)])]) = .error .serde := by
+  simp [cfgUnit, serdeUnitName, Json.get?, Json.lookup]
+example : parserOk (.arr [.obj [("primary", idJson 1)]]) = true := by
+  simp [parserOk, u8MapOk, u8Of, asU64_idJson]
+example : parserOk (.arr [.obj [("primary", .str "1")]]) = false := by
+  simp [parserOk, u8MapOk, u8Of, Json.asU64?]
+example : parserOk (.arr []) = false := by simp [parserOk]
 -- haversine: the dateline itself is inside the range, a hair beyond it is not
 example : (coordDistanceMeters (180 : ℚ) 0 (-180) 0 0).isSome = true := by
   simp [coordDistanceMeters, coordsInRange, inRange, Lit.lit]
